@@ -98,6 +98,9 @@ func runInputs(c *hx.Ctx, ins []*Input, base int, par int) []*outcome {
 			continue
 		}
 		outs[i].member = m
+		if signersOracle(c, in, m) {
+			outs[i].failed = true
+		}
 		var sealed []Sealed
 		ok := true
 		for bi, b := range m.Blocks {
@@ -271,6 +274,97 @@ func diffMap(a, b map[string]string) string {
 		return "different key sets"
 	}
 	return ""
+}
+
+const classSignerList = "signers:validated-list-differs"
+
+// signersOracle: for every offered transaction whose verification scripts are canonical (script hash =
+// address of the parsed keys; everything the chain generator builds), the list the validator publishes
+// in tx.SignedAddr must be, as a set, the accounts of the scripts and what GetSignatureAddresses
+// derives from the decoded bytes, and, as a list, free of empty and duplicate entries. Reports the
+// single transaction as a minimal input.
+func signersOracle(c *hx.Ctx, in *Input, m *ChildOut) bool {
+	bad := false
+	for _, b := range m.Blocks {
+		for _, ts := range b.Signers {
+			c.Eval()
+			if !ts.Accepted {
+				continue
+			}
+			tx, err := types.TransactionFromRawBytes(hx.UnHex(ts.Raw))
+			if err != nil {
+				continue
+			}
+			want := map[string]bool{}
+			canonical := true
+			if tx.IsEipTx() {
+				want[tx.Payer.ToHexString()] = true
+			} else {
+				for _, rs := range tx.Sigs {
+					sg, err := rs.GetSig()
+					if err != nil {
+						canonical = false
+						break
+					}
+					var ka common.Address
+					if len(sg.PubKeys) == 1 {
+						ka = types.AddressFromPubKey(sg.PubKeys[0])
+					} else if ka, err = types.AddressFromMultiPubKeys(sg.PubKeys, int(sg.M)); err != nil {
+						canonical = false
+						break
+					}
+					if ka != common.AddressFromVmCode(rs.Verify) {
+						canonical = false
+						break
+					}
+					want[ka.ToHexString()] = true
+				}
+			}
+			if !canonical {
+				c.Count("signers-oracle:skipped-noncanonical")
+				continue
+			}
+			c.Count("signers-oracle:checked")
+			problem := ""
+			seen := map[string]bool{}
+			for _, a := range ts.Member {
+				switch {
+				case a == common.ADDRESS_EMPTY.ToHexString():
+					problem = "empty address in the validator's list"
+				case seen[a]:
+					problem = "duplicate entry in the validator's list"
+				case !want[a]:
+					problem = "validator lists an account no script belongs to: " + a
+				}
+				seen[a] = true
+			}
+			syn := map[string]bool{}
+			for _, a := range ts.Syncer {
+				syn[a] = true
+			}
+			for a := range want {
+				if !seen[a] && problem == "" {
+					problem = "validator's list misses signer " + a
+				}
+				if !syn[a] && problem == "" {
+					problem = "decoder's list misses signer " + a
+				}
+			}
+			for a := range syn {
+				if !want[a] && problem == "" {
+					problem = "decoder lists an account no script belongs to: " + a
+				}
+			}
+			if problem == "" {
+				continue
+			}
+			bad = true
+			min := &Input{Kind: "chain", BookKey: in.BookKey, Blocks: [][]TxSpec{{{Raw: ts.Raw, Kind: "signers-oracle"}}}, Repeat: 1, Track: in.Track}
+			c.Fail(classSignerList, "the signer list the validator publishes differs from the accounts of the (canonical) scripts / from the decoder's list: "+problem,
+				min, map[string]interface{}{"validator": ts.Member, "decoder": ts.Syncer}, "one entry per signing account, no others")
+		}
+	}
+	return bad
 }
 
 // ---- correspondence cases ----
